@@ -679,7 +679,19 @@ class Interp:
                 self.enums[scrut.path] = p["adt"]
             return ind, (lambda: self.bind(fr, p, scrut))
         if k == "Const":
+            b = self.bool_of(scrut)
+            v = p.get("val")
+            if b is not None and isinstance(v, bool):
+                return (b if v else ind_not(b)), (lambda: None)
             raise Unsupported("constant pattern in length-relevant match")
+        if k == "Leaf" and isinstance(scrut, TupleVal):
+            tot = Poly.const(1)
+            binders = []
+            for sub in p["subs"]:
+                i, bnd = self.match_ind(fr, scrut.items[int(sub["idx"])], sub["pat"])
+                tot = tot * i
+                binders.append(bnd)
+            return tot, (lambda: [bb() for bb in binders])
         raise Unsupported("pattern kind %s in match" % k)
 
     def bind_or(self, fr, p, scrut):
@@ -718,14 +730,36 @@ class Interp:
         self.written = Poly()
         saved = dict(fr.env)
         self.bind(fr, e["pat"], PathVal(("$it",)))
+        # integer accumulators updated in the body (`total += 3 + filter.len()`): run the body with the
+        # accumulator at a fresh base value; the increment must not depend on the base
+        assigned = set()
+        for n in walk_all(e["body"]):
+            if n.get("k") in ("Assign", "AssignOp"):
+                l = strip(n["l"])
+                if l.get("k") == "Var" and l["var"]["id"] in saved:
+                    assigned.add(l["var"]["id"])
+        bases = {}
+        for vid in assigned:
+            if isinstance(saved[vid], (Poly, int)) and not isinstance(saved[vid], bool):
+                bases[vid] = Poly.gen(("val", ("$base", str(vid))))
+                fr.env[vid] = bases[vid]
         self.eval(fr, e["body"])
         body_w = self.written
         tr = self.trace[t0:]
         del self.trace[t0:]
+        deltas = {}
         for vid in saved:
             if fr.env.get(vid) is not saved[vid]:
-                raise Unsupported("loop-carried variable in for loop")
+                if vid in bases and isinstance(fr.env.get(vid), Poly):
+                    d = fr.env[vid] - bases[vid]
+                    if any(g is not None and g[0] == "val" and g[1][0] == "$base" for (_a, g) in d.m):
+                        raise Unsupported("accumulator update depends on its own value")
+                    deltas[vid] = d
+                else:
+                    raise Unsupported("loop-carried variable in for loop")
         fr.env = saved
+        for vid, d in deltas.items():
+            fr.env[vid] = _P(saved[vid]) + g_sum(it.path, d)
         self.written = w0 + g_sum(it.path, body_w)
         if tr:
             self.trace.append(("each", fmt_path(it.path), tr))
@@ -850,8 +884,8 @@ class Interp:
         """Byte length of the slice-like value denoted by `e`."""
         ty = (e.get("ty") or "")
         inner = strip(e)
-        m = re.search(r"\[u8; (\d+)\]", inner.get("ty") or "")
-        if m and inner.get("k") != "Var":
+        m = re.fullmatch(r"&?(?:mut )?\[u8; (\d+)\]", inner.get("ty") or "")
+        if m:
             return Poly.const(int(m.group(1)))
         if inner.get("k") == "Call":
             d = inner["fn"].get("def", "")
